@@ -534,6 +534,11 @@ class LoopMixin:
             st.assume(self.spec_eval(st, src, fid, st.heap, None, {}))
         st.heap0 = dict(st.heap)
         st.entry_frame = dict(fr)
+        self.entry_symbols = set()
+        for v0 in fr.values():
+            if isinstance(v0, SP_SV) and isinstance(v0.t, z3.ExprRef) and z3.is_const(v0.t):
+                self.entry_symbols.add(v0.t.decl().name())
+        self.vacuous_paths = []
         # ghost code at entry (e.g. an ILogger.write implementation records "this write" itself)
         for comp, gsrc in c.extra.get("ghost_entry", []):
             gv = self.spec_value(st, gsrc, fid, st.heap0, st.entry_frame, {})
@@ -571,6 +576,10 @@ class LoopMixin:
     def check_exit(self, c, o, fid):
         st = o.st
         st.fid = fid
+        # vacuity guard: a path that reaches an exit with an unsatisfiable path condition was made infeasible by assumptions
+        # (callee postconditions, type facts) after its last branch -- every obligation on it would be proved vacuously
+        if not self._sat(st, None):
+            self.vacuous_paths.append("/".join(t for t in st.trail if not t.startswith(("in:", "out:"))))
         # in postconditions a parameter name denotes the argument object (its entry binding), even if the body rebinds it
         for pname in self.param_names:
             if pname in st.entry_frame:
